@@ -359,6 +359,13 @@ func checkHistory(root string, h histCase) []kit.V {
 	sb.WriteString("args 0 $X ${X} $Y ${Y} ${X@R} a$X-b\n")
 	sb.WriteString("getenv 1 X\ngetenv 2 Y\ngetenv 4 HOME\nargs 5 a${HOME}b\ngetenv 6 GORACE\nargs 7 a${GORACE}b\n")
 	sb.WriteString("exec henv\ncapstdout 3\n")
+	// cmpenv expands its second file: against the expansion the model gives it
+	// must pass; a byte-identical copy of the unexpanded file differs from the
+	// expansion ("$$" alone sees to that) and must be found different
+	sb.WriteString("cmpenv exp raw\n! cmpenv rawcopy raw\n")
+	rawText := "$X|${Y}|$$|a${X}b\n"
+	expText := model["X"] + "|" + model["Y"] + "|$|a" + model["X"] + "b\n"
+	sb.WriteString("-- raw --\n" + rawText + "-- rawcopy --\n" + rawText + "-- exp --\n" + expText)
 	rec, res := runScriptSetup(root, sb.String(), h.Setup)
 	key := func(class string) string {
 		if h.Mode != "" {
